@@ -375,7 +375,7 @@ where
     promoted_for_tokens
 }
 
-//@ prop=C07 tier=quick kind=hold
+//@ prop=C07 tier=thorough kind=hold
 //@ enc=DecreasePosition::try_new, DecreasePosition::check_partial_close, DecreasePosition::is_remaining_size_too_small, DecreasePosition::check_close, PositionExt::pnl_value, PositionExt::size_delta_in_tokens, PositionExt::will_collateral_be_sufficient
 //@ bound=T=u8, DECIMALS=1: long position; every size in usd / tokens, collateral, collateral token, size delta, withdrawal amount, flag combination, min position size / min collateral value / min collateral factor, any flat index price and flat collateral price; the position's own open-interest slots = position + symbolic rest, the other slots 0; pnl cap factor 100% on a 100/100 pool, open-interest collateral multiplier 0
 //@ stubs=none; hooks: DecreasePosition::verif_check_partial_close / verif_check_close / verif_with_position / accessors (thin wrappers)
@@ -385,7 +385,7 @@ fn c07_partial_close_promotes_long_u8() {
     kani::cover!(promoted_for_tokens, "promoted because the tokens would be zeroed");
 }
 
-//@ prop=C07 tier=quick kind=hold
+//@ prop=C07 tier=thorough kind=hold
 //@ enc=DecreasePosition::try_new, DecreasePosition::check_partial_close, DecreasePosition::is_remaining_size_too_small, DecreasePosition::check_close, PositionExt::pnl_value, PositionExt::size_delta_in_tokens, PositionExt::will_collateral_be_sufficient
 //@ bound=T=u8, DECIMALS=1: short position; every size in usd / tokens, collateral, collateral token, size delta, withdrawal amount, flag combination, min position size / min collateral value / min collateral factor, any flat index price and flat collateral price; the position's own open-interest slots = position + symbolic rest, the other slots 0; pnl cap factor 100% on a 100/100 pool, open-interest collateral multiplier 0
 //@ stubs=none; hooks: DecreasePosition::verif_check_partial_close / verif_check_close / verif_with_position / accessors (thin wrappers)
@@ -394,11 +394,11 @@ fn c07_partial_close_promotes_short_u8() {
     let _ = partial_close_promotes::<u8, 1>(false, Some(false));
 }
 
-//@ prop=C07 tier=thorough kind=hold
+//@ prop=C07 tier=quick kind=hold
 //@ enc=DecreasePosition::try_new, DecreasePosition::check_partial_close, DecreasePosition::is_remaining_size_too_small, DecreasePosition::check_close, PositionExt::pnl_value, MarketUtils::cap_pnl, PositionExt::will_collateral_be_sufficient, PerpMarketExt::min_collateral_factor_for_open_interest
-//@ bound=T=u8, DECIMALS=1: as c07_partial_close_promotes_u8 with every price (min/max), open-interest pool, liquidity pool, trader pnl factor and open-interest collateral multiplier symbolic
-//@ stubs=none; hooks as above
-//@ timeout=3600 mem=30
+//@ bound=T=u8, DECIMALS=1: every position (sizes, collateral, side, collateral token), size delta, withdrawal amount, flag combination, min position size / min collateral value / min collateral factor, every price (min/max, only what Prices::is_valid guarantees), every open-interest and liquidity pool slot, trader pnl factor and open-interest collateral multiplier
+//@ stubs=none; hooks: DecreasePosition::verif_check_partial_close / verif_check_close / verif_with_position / accessors (thin wrappers); assumed: the position's pool slots contain the position
+//@ timeout=1500
 #[kani::proof]
 fn c07_partial_close_promotes_all_u8() {
     let promoted_for_tokens = partial_close_promotes::<u8, 1>(true, None);
@@ -517,7 +517,7 @@ where
     let _ = max;
 }
 
-//@ prop=C07 tier=quick kind=hold
+//@ prop=C07 tier=thorough kind=hold
 //@ enc=IncreasePosition::try_new, IncreasePosition::process_collateral, PositionExt::position_fees, FeeParams::base_position_fees, PositionFees::{total_cost_amount,for_pool,for_receiver}, BaseMarketMutExt::{apply_delta,apply_delta_to_claimable_fee_pool}
 //@ bound=T=u8, DECIMALS=1: every collateral-sum / liquidity / claimable-fee pool value, order-fee factors incl. discount, position, deposit and size delta, any flat index and collateral price, every balance-change kind; borrowing and funding already settled (level 0)
 //@ stubs=none; hook: IncreasePosition::verif_process_collateral (thin wrapper)
@@ -526,11 +526,11 @@ fn c07_increase_collateral_sum_exact_u8() {
     increase_collateral_sum_exact::<u8, 1>(0);
 }
 
-//@ prop=C07 tier=thorough kind=hold
-//@ enc=IncreasePosition::process_collateral, PositionExt::position_fees, PositionExt::pending_borrowing_fee_value, PositionExt::pending_funding_fees, unpack_to_funding_amount_delta, PositionFees::set_borrowing_fees
-//@ bound=T=u8, DECIMALS=1: as c07_increase_collateral_sum_exact_u8 plus symbolic pending borrowing and funding fees (cumulative factor, per-size indices, adjustment)
-//@ stubs=none; hook as above
-//@ timeout=3600 mem=30
+//@ prop=C07 tier=quick kind=hold
+//@ enc=IncreasePosition::try_new, IncreasePosition::process_collateral, PositionExt::position_fees, FeeParams::base_position_fees, PositionExt::pending_borrowing_fee_value, PositionExt::pending_funding_fees, unpack_to_funding_amount_delta, PositionFees::{set_borrowing_fees,total_cost_amount,for_pool,for_receiver}, BaseMarketMutExt::{apply_delta,apply_delta_to_claimable_fee_pool}
+//@ bound=T=u8, DECIMALS=1: every collateral-sum / liquidity / claimable-fee pool value, order-fee factors incl. discount, borrowing receiver factor, cumulative borrowing factor and position factor, funding / claimable-funding per-size indices of market and position, packing adjustment, position, deposit and size delta, any flat index and collateral price, every balance-change kind
+//@ stubs=none; hooks: IncreasePosition::verif_process_collateral, verif_with_position (thin wrappers)
+//@ timeout=1500
 #[kani::proof]
 fn c07_increase_collateral_sum_exact_all_fees_u8() {
     increase_collateral_sum_exact::<u8, 1>(2);
